@@ -36,7 +36,7 @@ PROPS = {
     "C09": dict(profiles=[("mixed", True, 14), ("channels", True, 14), ("calls", True, 14), ("intro", False, 10)], alphabet=ALL_KINDS, mc=["MC_Lifecycle"]),
     "C10": dict(profiles=[("listeners", False, 4), ("listeners", True, 8), ("mixed", False, 4)], alphabet=LST_KINDS, mc=["MC_Listeners"]),
     "C11": dict(profiles=[("abuse", False, 5), ("mixed", False, 6), ("intro", False, 5)], alphabet=ALL_KINDS, mc=["MC_Abuse"]),
-    "C12": dict(profiles=[("mixed", True, 3), ("calls", True, 3), ("events", True, 3)], alphabet=ALL_KINDS, mc=["MC_Versions"]),
+    "C12": dict(profiles=[("mixed", True, 3), ("calls", True, 3), ("events", True, 3)], alphabet=ALL_KINDS, mc=["MC_Versions_14_20", "MC_Versions_20_14", "MC_Versions_15_19", "MC_Versions_17_18"]),
 }
 
 TIERS = {
@@ -85,6 +85,11 @@ def fuzz_and_validate(prop, tier, seed, verdict, cov):
                     verdict.violation(why, payload, site=json.dumps(recs[idx - 1].get("m", {}))[:200])
                 else:
                     verdict.note(f"violation of {p} observed while checking {prop}: {why} ({profile}, seed {s}, record {idx})")
+            # conformance level: the same trace against the implementation-shaped specification
+            conf = vlib.tlc_trace("Trace_Broker.tla", "Trace_Broker.cfg", trace)
+            for (idx, why) in conf["drifts"]:
+                cov["drift"] += 1
+                log(f"DRIFT property={prop} the broker deviates from Broker.tla: {why} ({profile}, seed {s}, record {idx})")
             cov["traces"] += 1
     cov["distinct_nontrivial"] = len(sigs)
     cov["samples"] = samples
@@ -94,7 +99,7 @@ def model_check(prop, tier, seed, verdict, cov):
     cfg = TIERS[tier]
     for name in PROPS[prop]["mc"]:
         cfgfile = f"{name}.cfg" if tier == "quick" else (f"{name}_thorough.cfg" if os.path.exists(os.path.join(vlib.SPEC, f"{name}_thorough.cfg")) else f"{name}.cfg")
-        module = f"{name}.tla"
+        module = "MC_Broker.tla"
         if not os.path.exists(os.path.join(vlib.SPEC, module)) or not os.path.exists(os.path.join(vlib.SPEC, cfgfile)):
             cov.setdefault("mc_missing", []).append(name)
             continue
@@ -111,7 +116,7 @@ def model_check(prop, tier, seed, verdict, cov):
 def run(prop, tier, seed):
     t0 = time.time()
     verdict = vlib.Verdict(prop)
-    cov = dict(records=0, runs=0, traces=0, messages_sent=0, states=0, transitions=0)
+    cov = dict(records=0, runs=0, traces=0, messages_sent=0, states=0, transitions=0, drift=0)
     vlib.build_harness()
     model_check(prop, tier, seed, verdict, cov)
     fuzz_and_validate(prop, tier, seed, verdict, cov)
@@ -126,6 +131,7 @@ def run(prop, tier, seed):
         traces_validated_against_impl=cov["runs"],
         records_validated=cov["records"],
         messages_sent=cov["messages_sent"],
+        conformance_drifts=cov["drift"],
         known_findings_reobserved=verdict.known,
         other_property_notes=verdict.notes[:10],
     )
